@@ -5,8 +5,8 @@
    [modexp_Z a e m = a^e mod m] and [bn_mod_mul a b m = a*b mod m] are OpenSSL's BN_mod_exp and
    BN_mod_mul at their documented meaning. *)
 From Coq Require Import ZArith NArith List.
-From LCP Require Import Gen.Repo_dhdrbg Crypto.DhModel Crypto.DhSpec Crypto.DhProofs
-     Crypto.DhEval Crypto.DhEvalProofs.
+From LCP Require Import Gen.Repo_dhdrbg Crypto.DhModel Crypto.DhSpec Crypto.DhProofs.
+From LCP Require Import Crypto.DhEval Crypto.DhEvalProofs.
 Import ListNotations.
 Local Open Scope Z_scope.
 
